@@ -335,6 +335,12 @@ OUTCOMES = {
                              '>>> # SCRIPT style usage follows', '>>> print("a")', 'a'], 'passed', True),
     # ends with sys.stdout replaced by a stream of its own: the reports of the later doctests must still appear
     'pass_replaces_stdout': (['>>> mark("{id}")', '>>> import sys, io', '>>> sys.stdout = io.StringIO()'], 'passed', True),
+    # emits a Python warning while it runs, then passes / fails / is skipped
+    'pass_warns': (['>>> import warnings', '>>> mark("{id}")', '>>> warnings.warn("w {id}")', '>>> print("a")', 'a'], 'passed', True),
+    'fail_output_warns': (['>>> import warnings', '>>> mark("{id}")', '>>> warnings.warn("w {id}")', '>>> print("a")', 'b'],
+                          'failed', True),
+    'fail_exc_warns': (['>>> import warnings', '>>> mark("{id}")', '>>> warnings.warn("w {id}", DeprecationWarning)',
+                        '>>> raise ValueError("v")'], 'failed', True),
     'fail_output': (['>>> mark("{id}")', '>>> print("a")', 'b'], 'failed', True),
     'fail_exc': (['>>> mark("{id}")', '>>> raise ValueError("v")'], 'failed', True),
     'fail_late': (['>>> mark("{id}")', '>>> print("a")', 'a', '>>> print("c")', 'd'], 'failed', True),
